@@ -396,6 +396,34 @@
    ((src) != G_P || (VB_AT_P(done) && V_AT_P(dist) == 0 && VU_AT_P(pred) == (VertexIndex)BG_VERTEX_MAX)) && \
    (!((bg_size)G_P < (g)->size && (bg_size)G_Q < (g)->size && G_P != G_Q && (src) != G_Q && VB_AT_Q(done) && VU_AT_Q(pred) == G_P) || \
     (D_CNT_PQ(g) > 0 && VB_AT_P(done) && V_AT_Q(dist) == V_AT_P(dist) + 1)))
+/* ---- all-predecessor search: pr is the vector of predecessor lists (a bg_adj of its own) */
+#define PR_WF(pr, g)                                                          \
+  (BG_ADJ_WF(pr) && (pr).n == (g)->size && (pr).r.restBound <= (g)->size && (pr).rowP->bound <= (g)->size && (pr).rowQ->bound <= (g)->size)
+/* the scratch row belongs to the graph (read only) or to the predecessor lists */
+#define PR_SCRATCH_BENIGN(pr, g)                                              \
+  (!bg_scratch_row.valid || D_SCRATCH_BENIGN(g) ||                            \
+   (bg_scratch_row.from == &(pr) && (bg_scratch_row.owner == 0 || bg_scratch_row.owner == &(pr)) && \
+    bg_scratch_row.row.idx != (bg_size)G_P && bg_scratch_row.row.idx != (bg_size)G_Q && \
+    bg_scratch_row.row.idx < (pr).n && bg_scratch_row.row.bound <= (g)->size && BG_LIST_WF(bg_scratch_row.row) && \
+    bg_scratch_row.row.c.len <= (pr).r.restLen && bg_scratch_row.row.c.up <= (pr).r.restUp))
+/* copies of G_P in the predecessor list of G_Q, and the length of that list */
+#define PR_P_IN_Q(pr) (G_P == G_Q ? (pr).rowP->c.nP : (pr).rowQ->c.nP)
+#define PR_LEN_Q(pr) (G_P == G_Q ? (pr).rowP->c.len : (pr).rowQ->c.len)
+#define PR_LEN_P(pr) ((pr).rowP->c.len)
+#define BFSALL_QUEUE(g, q)                                                    \
+  ((q).bound <= (g)->size && (q).nP < BG_CAP && (q).nQ < BG_CAP && (q).nO < BG_CAP && (G_P != G_Q || (q).nQ == 0) && \
+   (!(q).curValid || ((bg_size)(q).cur < (q).bound && (BG_IS_P((q).cur) ? (q).nP : BG_IS_Q((q).cur) ? (q).nQ : (q).nO) > 0)) && \
+   (q).popped + BG_QUEUE_LEN(q) == (q).pushed)
+/* every vertex other than the source is enqueued when its first predecessor is recorded, and only then */
+#define BFSALL_ONCE(g, pr, q)                                                 \
+  ((q).pushedP == (((bg_size)G_P < (g)->size && (bg_ghost_src == G_P || PR_LEN_P(pr) > 0)) ? 1 : 0) && \
+   (q).pushedQ == (((bg_size)G_Q < (g)->size && G_P != G_Q && (bg_ghost_src == G_Q || PR_LEN_Q(pr) > 0)) ? 1 : 0))
+#define BFSALL_FACTS(g, dist, pr, done)                                       \
+  ((bg_size)bg_ghost_src < (g)->size && (bg_ghost_src != G_P || (PR_LEN_P(pr) == 0 && VB_AT_P(done))) && \
+   (bg_ghost_src != G_Q || (PR_LEN_Q(pr) == 0 && VB_AT_Q(done) && V_AT_Q(dist) == 0)) && \
+   ((bg_size)G_Q >= (g)->size || bg_ghost_src == G_Q || PR_LEN_Q(pr) > 0 || V_AT_Q(dist) == BG_VERTEX_MAX) && \
+   ((bg_size)G_P >= (g)->size || bg_ghost_src == G_P || PR_LEN_P(pr) > 0 || V_AT_P(dist) == BG_VERTEX_MAX) && \
+   PR_P_IN_Q(pr) <= 1 && (PR_P_IN_Q(pr) == 0 || ((bg_size)G_P < (g)->size && (bg_size)G_Q < (g)->size && D_CNT_PQ(g) > 0)))
 /* ---- unordered_set<VertexIndex> S and a walk over it */
 #define S_HAS_P(s) ((s).hasP)
 #define S_HAS_Q(s) (G_P == G_Q ? (s).hasP : (s).hasQ)
